@@ -261,8 +261,12 @@ def run_sort_vector(vec, tid: str, prop: str, variant: int = 0) -> dict:
             q = dict(base, ordering=ordering)
         else:
             q = dict(base, graded=vec["graded"], reverse=vec["reverse"])
+        dim_names = []
+        if fn == "monomial" and (variant // 3) % 2:
+            dim_names = [(1, 3, 4, 10)[j] for j in range(d)]
+            q["dim_names"] = dim_names
         rec.do("index", [], keep=False, fn=fn, p=q, start=start, stop=stop, qlow=vec["qlow"], qup=vec["qup"],
-               graded=vec["graded"], reverse=vec["reverse"], inverse=False)
+               graded=vec["graded"], reverse=vec["reverse"], inverse=False, dim_names=dim_names)
     rec.meta["source"] = "MC_Sort"
     return rec.to_json()
 
